@@ -189,8 +189,10 @@ class Fragment(AbstractApplication):
             rctr = BundleContainer()
             rctr.bundle.primary = reassm.first_frag.primary.copy()
             rctr.bundle.primary.bundle_flags &= ~PrimaryBlock.Flag.IS_FRAGMENT
-            rctr.bundle.primary.crc_type = AbstractBlock.CrcType.NONE
+            # same CRC type as the original (security blocks may be bound to
+            # the primary block encoding), value over the restored content
             rctr.bundle.primary.crc_value = None
+            rctr.bundle.primary.update_crc()
 
             LOGGER.debug('Copying %d first-fragment blocks', len(reassm.first_frag.blocks))
             for blk in reassm.first_frag.blocks:
